@@ -585,7 +585,7 @@ func (c PGCase) checkStored(vs *hx.Vs, cl classSet, what string, in *pgInsertInf
 
 func TestPGRewrite(t *testing.T) {
 	R.Rule("TestPGRewrite", "a PostgreSQL session as in TestPGRelay with an encryptor configuration for table t (roles as in TestMySQLRewrite): simple and extended SELECTs (result formats none / text / binary / per column, Describe of statement and portal, Flush, row limits) answered by the scripted backend with rows whose configured columns hold NULL / empty / really protected values (fix.Protect) / bytes that do not decrypt (replaced by the configured default: grow, shrink, same length); INSERT as simple query and as Parse/Bind with text and binary parameters and declared or undeclared types. Oracle: message order and types preserved; untouched messages byte-identical; a rewritten DataRow re-parses strictly (declared lengths, no trailing bytes), field count and NULL markers preserved, unconfigured fields byte-identical, configured fields decode (independent decoder, by the type of the RowDescription the client received) to the expected plaintext / default / original; RowDescription / ParameterDescription change only type oids of typed configured columns; a rewritten Query / Parse / Bind is executed by an independent typed database (pg_query based): same row shape, NULLs and unconfigured values preserved, configured values not in clear; Bind result formats keep their decoded meaning. Non-trivial: a row with >= 1 changed and >= 1 unchanged non-NULL column")
-	hx.Checks(40, 400)
+	hx.Checks(300, 1200)
 	rapid.Check(t, func(rt *rapid.T) {
 		c := genPGRewriteCase(rt)
 		vs, classes, nt := CheckPG(c)
